@@ -44,6 +44,12 @@ def mk_type(t):
     k = kind(t)
     if k in _SCALAR:
         return getattr(hl, _SCALAR[k])
+    if k == 'void':
+        return hl.tvoid
+    if k == 'rng_state':
+        return hl.expr.types.trngstate
+    if k == 'stream':
+        return hl.tstream(mk_type(t[1]))
     if k == 'locus':
         return hl.tlocus(reference(uncps(t[1])))
     if k == 'interval':
@@ -61,6 +67,37 @@ def mk_type(t):
     if k == 'ndarray':
         return hl.tndarray(mk_type(t[1]), t[2])
     raise ValueError(t)
+
+
+def desc_type(ht):
+    """real hail type object -> neutral description (None for anything unexpected)"""
+    T = hl.expr.types
+    for k, a in _SCALAR.items():
+        if ht is getattr(hl, a):
+            return k
+    if ht is hl.tvoid:
+        return 'void'
+    if ht is T.trngstate:
+        return 'rng_state'
+    if isinstance(ht, T.tlocus):
+        return ['locus', cps(ht.reference_genome.name)]
+    if isinstance(ht, T.tinterval):
+        return ['interval', desc_type(ht.point_type)]
+    if isinstance(ht, T.tarray):
+        return ['array', desc_type(ht.element_type)]
+    if isinstance(ht, T.tstream):
+        return ['stream', desc_type(ht.element_type)]
+    if isinstance(ht, T.tset):
+        return ['set', desc_type(ht.element_type)]
+    if isinstance(ht, T.tdict):
+        return ['dict', desc_type(ht.key_type), desc_type(ht.value_type)]
+    if isinstance(ht, T.tstruct):
+        return ['struct', [[cps(n), desc_type(ft)] for n, ft in ht.items()]]
+    if isinstance(ht, T.ttuple):
+        return ['tuple', [desc_type(x) for x in ht.types]]
+    if isinstance(ht, T.tndarray):
+        return ['ndarray', desc_type(ht.element_type), int(ht.ndim)]
+    return None
 
 
 def mk_float(v, width):
